@@ -211,3 +211,31 @@ pub fn query(address: &SocketAddr, timeout_settings: Option<TimeoutSettings>) ->
         unused_entries: server_vars,
     })
 }
+
+/// Verification unit ports (compiled only with `--cfg gamedig_verif`).
+#[cfg(gamedig_verif)]
+pub mod verif_unit {
+    use super::*;
+
+    pub fn data_as_table(data: &[u8]) -> GDResult<(HashMap<String, Vec<String>>, usize, usize)> {
+        let mut buffer = Buffer::<BigEndian>::new(data);
+        let (t, rows) = super::data_as_table(&mut buffer)?;
+        Ok((t, rows, buffer.current_position()))
+    }
+
+    pub fn get_server_vars(data: &[u8]) -> GDResult<(HashMap<String, String>, usize)> {
+        let mut buffer = Buffer::<BigEndian>::new(data);
+        let v = super::get_server_vars(&mut buffer)?;
+        Ok((v, buffer.current_position()))
+    }
+
+    pub fn get_players(data: &[u8]) -> GDResult<Vec<Player>> {
+        let mut buffer = Buffer::<BigEndian>::new(data);
+        super::get_players(&mut buffer)
+    }
+
+    pub fn get_teams(data: &[u8]) -> GDResult<Vec<Team>> {
+        let mut buffer = Buffer::<BigEndian>::new(data);
+        super::get_teams(&mut buffer)
+    }
+}
